@@ -120,6 +120,22 @@ def oracle(ctx, case, real, rt):
     if not ds:
         return
     seq = per[ds[0]]
+    # what the destinations were offered is what was emitted, neither more nor less: every dict that went into Logger.write
+    # and was not withheld by a failing field serializer, once each, in that order (independent record: the interpreter's
+    # wrapper around Logger.write)
+    def ident(m):
+        return canon([m.get("task_uuid"), m.get("task_level")])
+    got = [ident(m) for m in seq]
+    written = [ident(w[0]) for w in rt.writes]
+    withheld = [k for k in written if k not in set(got)]
+    if got != [k for k in written if k in set(got)] or len(set(got)) != len(got):
+        ctx.violation("the sequence offered to the destinations is not the sequence of messages written (duplicates, losses or another "
+                      "order): offered %d, written %d" % (len(got), len(written)), case)
+        return
+    nser_fail = sum(1 for w in rt.writes if w[0].get("message_type") == "eliot:serialization_failure")
+    if len(withheld) > nser_fail:
+        ctx.violation("%d written messages reached no destination but only %d serialization failures were reported" % (len(withheld), nser_fail), case)
+        return
     reports = [m for m in seq if m.get("message_type") == "eliot:destination_failure"]
     nonreport_fail = [f for f in fails if not f[3]]
     if len(reports) != len(nonreport_fail):
